@@ -46,7 +46,7 @@ class Check:
     level = "exploration"
     cases = {"quick": 1800, "thorough": 20000}
     rule = ("campaign per case: one world, one query (filtered or not, ordered by 1-2 keys with ties straddling the cut or unordered, 1-3 roots, bfs/dfs, with or without `archives` over worlds holding small zips), "
-            "two environments E1/E2 (arrival orders, DT_UNKNOWN, inode numbering, hash seed); the unlimited run under E1 gives M rows, then `limit N` is run for EVERY N in 0..M+2 under E1 and under E2. "
+            "two environments E1/E2 (arrival orders, DT_UNKNOWN, inode numbering, hash seed), in 15% of the campaigns with 1-3 entries whose lstat fails in every run; the unlimited run under E1 gives M rows, then `limit N` is run for EVERY N in 0..M+2 under E1 and under E2. "
             "Non-trivial = non-default environment choice reached fselect; distinct = distinct event-log signature.")
     assumptions = ["relational oracle: fselect's own unlimited run of the same world; no model of WHERE or of the comparator",
                    "ties at the cut may be resolved either way (only the key sequence is compared)"]
@@ -80,7 +80,14 @@ class Check:
         for p, kv in ov.items():
             if kv:
                 envs[1].setdefault("stat", {}).setdefault(p, {}).update(kv)
-        return {"world": world, "roots": roots, "keys": keys, "where": where, "plans": envs, "tz": "UTC"}
+        faults = []
+        if rng.random() < 0.15:
+            # entries that readdir lists but lstat refuses (removed in between, or behind an unsearchable component):
+            # the same answers in every run of the campaign, so M and the limited runs stay comparable
+            cand = [n["path"] for n in world["nodes"] if "/" in n["path"] and n["type"] in ("file", "symlink", "fifo")]
+            for p in rng.sample(cand, min(len(cand), rng.choice([1, 1, 2, 3]))):
+                faults.append({"call": "stat", "path": p, "errno": rng.choice(["ENOENT", "EACCES"])})
+        return {"world": world, "roots": roots, "keys": keys, "where": where, "plans": envs, "tz": "UTC", "faults": faults}
 
     def sample_view(self, case):
         c = dict(case)
@@ -113,6 +120,10 @@ class Check:
                     c = copy.deepcopy(case)
                     del c["world"]["nodes"][i]["zip"]["members"][j]
                     yield c
+        for i in range(len(case.get("faults") or [])):
+            c = copy.deepcopy(case)
+            del c["faults"][i]
+            yield c
         if case.get("only_n") is None:
             return
         if len(case["plans"]) > 1:
@@ -131,10 +142,15 @@ class Check:
         viols = []
         fromc = " from " + ", ".join("%s %s%s" % (r["top"], r["mode"], " archives" if r.get("arc") else "") for r in case["roots"])
         wherec = (" where " + case["where"]) if case["where"] else ""
-        sel = ["path"] + [k["key"] for k in keys]
+        faults = [f for f in case.get("faults") or [] if f["path"] in nm]
+        sel = ["path"] + [k["key"] for k in keys] + (["size"] if faults else [])
         orderc = (" order by " + ", ".join(k["key"] + (" desc" if k["desc"] else "") for k in keys)) if keys else ""
         base = "select " + ", ".join(sel) + fromc + wherec + orderc
-        shape = ("ordered" if keys else "streamed") + ("+archives" if any(r.get("arc") for r in case["roots"]) else "")
+        shape = ("ordered" if keys else "streamed") + ("+archives" if any(r.get("arc") for r in case["roots"]) else "") + ("+lstat_fails" if faults else "")
+        if faults:
+            case = dict(case, plans=copy.deepcopy(case["plans"]))
+            for plan in case["plans"]:
+                plan["fail"] = list(plan.get("fail", [])) + [dict(f) for f in faults]
         with ctx.sandbox(world) as sb:
             gen.validate_model(world, sb.root)
             r0 = sb.run([base + " into list"], plan=case["plans"][0], tz=case["tz"])
@@ -144,7 +160,7 @@ class Check:
             rows0 = r0.rows(len(sel))
             M = len(rows0)
             full = collections.Counter(rows0)
-            keyseq0 = [row[1:] for row in rows0]
+            keyseq0 = [row[1:1 + len(keys)] for row in rows0]
             if keys and sorted_violation(keyseq0, keys):
                 ctx.metric("unlimited_not_sorted")  # C05's business; the relational comparison below still applies
             ns = list(range(0, M + 3))
@@ -171,7 +187,7 @@ class Check:
                                                {"query": q, "N": N, "extra": [[x.decode("utf-8", "replace") for x in rr] for rr in list((got - full).elements())[:3]], "env": ei}))
                         return viols
                     if keys:
-                        ks = [row[1:] for row in rows]
+                        ks = [row[1:1 + len(keys)] for row in rows]
                         if not same_keys(ks, keyseq0[:len(rows)], keys):
                             viols.append(Violation(PROP, "C06.top", ["C06.top", "not_the_first_N_keys", shape],
                                                    {"query": q, "N": N, "M": M, "env": ei, "got_keys": [[x.decode("utf-8", "replace") for x in k] for k in ks[:6]],
